@@ -16,7 +16,9 @@ from __future__ import annotations
 
 import copy
 import inspect
+import os
 import pickle
+import tempfile
 
 import numpy as np
 
@@ -114,6 +116,42 @@ def is_container(o):
 
 
 # ------------------------------------------------------------------ program generation
+WRAPS = ['plain', 'plain', 'subclass', 'memmap', 'masked', 'arrayarray', 'recarray_field', 'fortran']
+
+
+class ArraySub(np.ndarray):
+    """an ndarray subclass as a caller might hold (np.matrix-like wrappers, unit arrays ...)"""
+
+
+def wrap_array(a, wrap, caller, tmpdir):
+    """Return an array-like with the content of 1-D array `a`, held (and later written) by the caller."""
+    import array as pyarray
+    if wrap == 'subclass' and a.dtype.kind in 'iufb':
+        w = a.copy().view(ArraySub)
+        caller.append(w)
+        return w
+    if wrap == 'memmap' and a.dtype.kind in 'iuf' and a.size:
+        fp = os.path.join(tmpdir, f'mm{len(caller)}.dat')
+        w = np.memmap(fp, dtype=a.dtype, mode='w+', shape=a.shape)
+        w[:] = a
+        caller.append(w)
+        return w
+    if wrap == 'masked' and a.dtype.kind in 'iuf':
+        w = np.ma.MaskedArray(a.copy())
+        caller.append(w.data)
+        return w
+    if wrap == 'arrayarray' and a.dtype in (np.dtype('int64'), np.dtype('float64')):
+        w = pyarray.array('q' if a.dtype.kind == 'i' else 'd', a.tolist())
+        caller.append(w)
+        return w
+    if wrap == 'fortran' and a.dtype.kind in 'iuf':
+        base = np.asfortranarray(np.stack([a, a], axis=1))
+        caller.append(base)
+        return base[:, 0]
+    caller.append(a)
+    return a
+
+
 CONSTRUCT = ['frame_2d', 'frame_items', 'frame_blocks', 'series', 'series_he', 'index', 'index_go', 'ih', 'frame_he', 'frame_go', 'frame_records', 'series_readonly', 'frame_view']
 
 
@@ -127,7 +165,7 @@ def cases(ctx):
             how = rng.choice(CONSTRUCT)
             spec = gen.rand_frame_spec(rng, 4, 4, dtypes=rng.choice([gen.DTYPES_BASIC, gen.DTYPES_ALL, ['int64', 'float64']]),
                                        index_kinds=('auto', 'str', 'ih', 'date'), column_kinds=('auto', 'str'), min_cols=1, min_rows=rng.choice([0, 1, 1]))
-            conts.append([how, spec])
+            conts.append([how, spec, rng.choice(WRAPS)])
         steps = []
         for _ in range(rng.randint(1, 8)):
             r = rng.random()
@@ -141,7 +179,7 @@ def cases(ctx):
         yield {'k': 'prog', 'conts': conts, 'steps': steps}
 
 
-def build(how, spec, caller):
+def build(how, spec, caller, wrap='plain', tmpdir=None):
     """Build a container through a public constructor from caller-held arrays (appended to `caller`)."""
     import static_frame as sf
     n, m = spec['rows'], len(spec['cols'])
@@ -162,7 +200,7 @@ def build(how, spec, caller):
         return sf.Frame(a2, index=index, columns=columns)
     if how in ('frame_items', 'frame_go', 'frame_he'):
         cls = {'frame_items': sf.Frame, 'frame_go': sf.FrameGO, 'frame_he': sf.FrameHE}[how]
-        caller.extend(arrays)
+        arrays = [wrap_array(a, wrap, caller, tmpdir) for a in arrays]
         labels = list(columns) if columns is not None else list(range(m))
         return cls.from_items(zip(labels, arrays), index=index)
     if how == 'frame_blocks':
@@ -179,8 +217,7 @@ def build(how, spec, caller):
         return sf.Frame.from_records(recs, index=index, columns=columns) if n else sf.Frame(columns=columns if columns is not None else range(m))
     if how in ('series', 'series_he'):
         cls = sf.Series if how == 'series' else sf.SeriesHE
-        caller.append(arrays[0])
-        return cls(arrays[0], index=index)
+        return cls(wrap_array(arrays[0], wrap, caller, tmpdir), index=index)
     if how == 'series_readonly':
         a = arrays[0].copy()
         a.flags.writeable = False      # the caller gives up writing: the library may use the array as it is
@@ -195,8 +232,7 @@ def build(how, spec, caller):
                 labs = labs2
         except Exception:
             pass
-        caller.append(labs)
-        return (sf.IndexGO if how == 'index_go' else sf.Index)(labs)
+        return (sf.IndexGO if how == 'index_go' else sf.Index)(wrap_array(labs, wrap, caller, tmpdir))
     if how == 'ih':
         outer = np.array(['a', 'b'])
         inner = np.array([1, 2, 3])
@@ -329,17 +365,22 @@ def evaluate(ctx, c, outs):
     fails = []
     caller = []
     live = []
-    for how, spec in c['conts']:
+    tmp = tempfile.TemporaryDirectory(prefix='sfv_c01_')
+    for ent in c['conts']:
+        how, spec = ent[0], ent[1]
+        wrap = ent[2] if len(ent) > 2 else 'plain'
+        ctx.count(f'wrap_{wrap}')
         try:
             with warnings.catch_warnings():
                 warnings.simplefilter('ignore')
-                o = build(how, spec, caller)
+                o = build(how, spec, caller, wrap, tmp.name)
         except Exception as ex:
             ctx.count('construct_raised')
             continue
         live.append(o)
         ctx.count(f'construct_{how}')
     if not live:
+        tmp.cleanup()
         return fails
     snaps = [snap(o) for o in live]
 
@@ -369,6 +410,13 @@ def evaluate(ctx, c, outs):
 
     def caller_writes(desc):
         for a in caller:
+            if not isinstance(a, np.ndarray):
+                try:            # stdlib array.array and other buffer objects
+                    if len(a):
+                        a[0] = a[0] + 1
+                except Exception:
+                    pass
+                continue
             if a.flags.writeable and a.size:
                 try:
                     flat = a.reshape(-1)
@@ -422,6 +470,11 @@ def evaluate(ctx, c, outs):
             if snap(res) != snap(src) and type(res) is type(src):
                 fails.append(Failure('oracle', f'{desc}: content differs after the round trip', c))
     observe_heap(ctx, c, live, caller)
+    del caller[:]
+    try:
+        tmp.cleanup()
+    except Exception:
+        pass
     return fails
 
 
@@ -441,7 +494,8 @@ def observe_heap(ctx, c, live, caller):
             continue
         conts.append([aid(a) for a in walk_arrays(o)])
     for a in caller:
-        aid(a)
+        if isinstance(a, np.ndarray):
+            aid(a)
     line = 'heap.inv (' + ' '.join(f'({b} {w})' for b, w in arrs) + ') (' + ' '.join('(' + ' '.join(map(str, cc)) + ')' for cc in conts) + ')'
     HEAP_LINES.append((c, line))
 
